@@ -63,6 +63,18 @@ CLAIMED['C17'] = ('FCSMeta, Gen_C17',
     'outside the rendering tables are not claimed.',
     'DESIGN.md 3.1, 4 C17')
 
+CLAIMED['C12'] = ('Stats, Gen_C12',
+    'exact-rational TLA+ definitions of the statistics; environment actions enumerate event matrices x container x '
+    'channel form; TLC checks definitional invariants and dumps expected values; every scenario executed through '
+    'FlowCal.stats for all ten statistics',
+    'Exhaustive over all pairs of columns of 1..3 events on two alphabets (small, and 16-bit-wide values that expose '
+    'integer overflow), five containers and nine channel forms; mean/median/mode/IQR/RCV and std^2, cv^2, gmean^N are '
+    'compared with exact rationals, the remaining identities (cv=std/mean, rcv=iqr/median, gcv=f(gstd)) on the '
+    'returned values; never-raises and scalar/vector shape rule included.',
+    'Trusted: TLC, value parser, float tolerance (1e-12; 2e-6 for float32 samples). gstd against its definition is a '
+    'logged observation (float reference computed by the harness).',
+    'DESIGN.md 3.2, 4 C12')
+
 NOT_APPLICABLE = {
     'C09': 'continuum numerics only (L-BFGS-B recovery of real parameters, real-analytic identities of closures): no '
            'state, history or case analysis for a TLA+ specification to enumerate; discrete fragment (Fit refuses <3 '
